@@ -84,7 +84,7 @@ void FN(reset)(void) {
     gs[j].a = 10 + j; gs[j].b = 20 + j; gs[j].c = 30 + j;
     for (int m = 0; m < 4; m++) gL[j].a[m] = 100 + 10 * j + m;
   }
-  gb.x = 1; gb.y = 2; gb.z = 3;
+  gb.x = 1; gb.y = 20; gb.z = 3;
   gna = 0;
   ri = 0; rl = 0; rf = 0; rd = 0; re = 0; rp = gi; rs = gs[3]; rL = gL[3];
 }
